@@ -84,7 +84,10 @@ Fixpoint merge (h : nat) (a b : ght) : ght * bool :=
 (* partial_cmp can panic: unreachable!() *)
 Inductive pres := PSome (c : comparison) | PNone | PPanic.
 
-(* the for loop of GhtInner::partial_cmp over self.keys().chain(other.keys()), with the flags *)
+(* the for loop of GhtInner::partial_cmp over self.keys().chain(other.keys()), with the flags;
+   after each key: `if self_any_greater && other_any_greater { return None; }`
+   (added by repo commit 40ab16e7935; before it the loop ran on and the final match reached
+   unreachable!() on incomparable tries) *)
 Fixpoint pcmp_loop (f : ght -> ght -> pres) (ca cb : list (N * ght)) (ks : list N)
          (self_any_greater other_any_greater : bool) : pres :=
   match ks with
@@ -95,17 +98,18 @@ Fixpoint pcmp_loop (f : ght -> ght -> pres) (ca cb : list (N * ght)) (ks : list 
           | true, true => PPanic                      (* (true, true) => unreachable!() *)
           end
   | k :: ks' =>
+    let next := fun sag oag => if sag && oag then PNone else pcmp_loop f ca cb ks' sag oag in
     match cget ca k, cget cb k with
     | Some x, Some y =>
       match f x y with                                (* self_value.partial_cmp(other_value)? *)
-      | PSome Gt => pcmp_loop f ca cb ks' true other_any_greater
-      | PSome Lt => pcmp_loop f ca cb ks' self_any_greater true
-      | PSome Eq => pcmp_loop f ca cb ks' self_any_greater other_any_greater
+      | PSome Gt => next true other_any_greater
+      | PSome Lt => next self_any_greater true
+      | PSome Eq => next self_any_greater other_any_greater
       | PNone => PNone                                (* `?` : early return None *)
       | PPanic => PPanic
       end
-    | Some _, None => pcmp_loop f ca cb ks' true other_any_greater
-    | None, Some _ => pcmp_loop f ca cb ks' self_any_greater true
+    | Some _, None => next true other_any_greater
+    | None, Some _ => next self_any_greater true
     | None, None => PPanic                            (* unreachable!() *)
     end
   end.
@@ -297,25 +301,19 @@ Definition pres_eqb (x y : pres) : bool :=
   | PNone, PNone | PPanic, PPanic => true
   | _, _ => false
   end.
-Definition undecided (x : pres) : bool := match x with PNone | PPanic => true | _ => false end.
-
-(* [lax]: for tries of height >= 2 whether an incomparable pair yields None or reaches
-   unreachable!() depends on HashMap iteration order (a nested panic vs. an earlier `?`);
-   the model fixes insertion order, so None/Panic are interchangeable when comparing the
-   implementation with the model -- never when comparing with the specification. *)
-Definition gans_eqb (lax : bool) (x y : gans) : bool :=
+Definition gans_eqb (x y : gans) : bool :=
   match x, y with
   | GABool a, GABool b => Bool.eqb a b
   | GANum a, GANum b => N.eqb a b
   | GARows a, GARows b => bag_eqb a b
   | GAOptRows a, GAOptRows b => opt_eqb bag_eqb a b
-  | GACmp a, GACmp b => pres_eqb a b || (lax && undecided a && undecided b)
+  | GACmp a, GACmp b => pres_eqb a b
   | _, _ => false
   end.
-Fixpoint ganswers_eqb (lax : bool) (xs ys : list gans) : bool :=
+Fixpoint ganswers_eqb (xs ys : list gans) : bool :=
   match xs, ys with
   | [], [] => true
-  | x :: xs', y :: ys' => gans_eqb lax x y && ganswers_eqb lax xs' ys'
+  | x :: xs', y :: ys' => gans_eqb x y && ganswers_eqb xs' ys'
   | _, _ => false
   end.
 
@@ -332,7 +330,7 @@ Definition gops_ok (nk arity : nat) (ops : list gop) : bool :=
 
 (* executable form of C08 on a history and the implementation's answers *)
 Definition C08_holds_b (nk : nat) (ops : list gop) (impl : list gans) : bool :=
-  ganswers_eqb false impl (gspec_run nk ops).
+  ganswers_eqb impl (gspec_run nk ops).
 
 Definition c08_chk (nk : nat) (ops : list gop) (impl : list gans) : N :=
-  verdict (ganswers_eqb (Nat.leb 2 nk) impl (gmodel_run nk ops)) (C08_holds_b nk ops impl).
+  verdict (ganswers_eqb impl (gmodel_run nk ops)) (C08_holds_b nk ops impl).
